@@ -460,6 +460,33 @@ def f_ole_vector_count(n):
     return "doc", out, len(out)
 
 
+def _jpeg_with_segment_length(data: bytes, n: int) -> bytes:
+    """The JPEG's first marker segment (APP0, right after SOI, in front of the frame header) declares a length of n bytes: the length
+    counts its own two bytes, so 0 and 1 are malformed, 2 is the shortest legal value.  In place - no record length changes."""
+    i = data.find(b"\xff\xd8\xff\xe0")
+    assert i >= 0, "no JPEG picture in the generated document"
+    return data[:i + 4] + struct.pack(">H", n) + data[i + 6:]
+
+
+def f_ppt_jpeg_segment_length(n):
+    from vlib.gen import cfb, docs, ole
+    data, _ = docs.build("ppt", 1)
+    streams = dict(cfb.read_cfb(data))
+    streams["Pictures"] = streams.get("Pictures", b"") + _jpeg_with_segment_length(ole._blip("jpeg", 12, 9, 7)["rec"], n)
+    out = cfb.make_cfb(streams)
+    return "ppt", out, len(out)
+
+
+def f_xls_jpeg_segment_length(n):
+    from vlib.gen import cfb, docs
+    data, _ = docs.build("xls", 1)
+    streams = dict(cfb.read_cfb(data))
+    name = "Workbook" if "Workbook" in streams else "Book"
+    streams[name] = _jpeg_with_segment_length(streams[name], n)
+    out = cfb.make_cfb(streams)
+    return "xls", out, len(out)
+
+
 def f_xls_many_blip_headers(n):
     """Workbook stream followed (after the last sheet's EOF) by n/16 back-to-back OfficeArt BLIP record headers (JPEG blip, 8 bytes
     each) that all declare a payload of n/2 bytes - it fits into the stream, every header lies inside its predecessors' declared
@@ -720,6 +747,8 @@ FAMILIES = {
     "pdf-many-pages": (f_pdf_many_pages, [80, 320, 1_280], "size"),
     "pdf-page-tree-cycle": (f_pdf_kids_cycle, [5, 10, 20, 40], "size"),
     "ole-property-vector-count": (f_ole_vector_count, [1 << 20, 1 << 21, 1 << 22, 1 << 23], "count"),
+    "ppt-jpeg-segment-length": (f_ppt_jpeg_segment_length, [0, 1, 2], "count"),
+    "xls-jpeg-segment-length": (f_xls_jpeg_segment_length, [0, 1, 2], "count"),
     "xls-many-blip-headers": (f_xls_many_blip_headers, [300_000, 600_000, 1_200_000], "size"),
     "ppt-nested-slide-lists": (f_ppt_nested_slide_lists, [250, 500, 1_000, 2_000], "size"),
     "zip-many-small-members": (f_zip_many_small_members, [500, 2_000, 8_000], "size"),
@@ -891,9 +920,11 @@ def work_limit(case):
                 out.setdefault("before_results", []).append(f"raised:{type(e).__name__}")
             del first
     if case.get("configure"):
-        # the public, process-global configuration call first: every documented cap that is not the configured one stays where it is
+        # the public, process-global configuration call(s) first: every documented cap that is not the configured one stays where it is,
+        # and a later call that sets other options leaves a configured cap alone
         from sharepoint2text.parsing.extractors.archive_extractor import configure_archive_extraction
-        configure_archive_extraction(**case["configure"])
+        for cfg in (case["configure"] if isinstance(case["configure"], list) else [case["configure"]]):
+            configure_archive_extraction(**cfg)
     if which == "read_file":
         with tempfile.TemporaryDirectory(prefix="verif-c12-") as td:
             p = os.path.join(td, "f.txt")
@@ -1038,6 +1069,12 @@ def main(run):
                        "configure": {"max_memory_size": MIB}, "label": f"{layout} member of 2MiB after members of 2MiB were read under the default limit and the limit was lowered to 1MiB", "expect": "skipped"})
         limits.append({"part": "limit", "which": "member-limit", "layout": layout, "member_size": 2 * MIB, "before": {"configure": {"max_memory_size": MIB}, "layouts": others, "member_size": 2 * MIB},
                        "configure": {"max_memory_size": 10 * MIB}, "label": f"{layout} member of 2MiB after members of 2MiB were skipped under a 1MiB limit and the limit was raised to 10MiB", "expect": "extracted"})
+    others = [{"buffer_size": 32768}, {"max_workers": 2}, {"enable_parallel": False}, {"enable_caching": False}, {"enable_streaming": False}, {}]
+    for layout in ("zip-deflated", "tar"):
+        limits.append({"part": "limit", "which": "member-limit", "layout": layout, "member_size": 1 * MIB + 1, "configure": [{"max_memory_size": MIB}] + others,
+                       "label": f"{layout} member of 1MiB+1 after max_memory_size=1MiB and then calls that set only other options", "expect": "skipped"})
+        limits.append({"part": "limit", "which": "member-limit", "layout": layout, "member_size": 10 * MIB + 1, "configure": [{"max_memory_size": 32 * MIB}] + others,
+                       "label": f"{layout} member of 10MiB+1 after max_memory_size=32MiB and then calls that set only other options", "expect": "extracted"})
     limits.append({"part": "limit", "which": "member-limit", "layout": "zip-deflated", "member_size": 1 * MIB + 1, "configure": {"max_memory_size": MIB}, "label": "zip-deflated member of 1MiB+1 after configure_archive_extraction(max_memory_size=1MiB)", "expect": "skipped"})
     limits.append({"part": "limit", "which": "member-limit", "layout": "zip-deflated", "member_size": 1 * MIB, "configure": {"max_memory_size": MIB}, "label": "zip-deflated member of 1MiB after configure_archive_extraction(max_memory_size=1MiB)", "expect": "extracted"})
     limits.append({"part": "limit", "which": "member-limit", "layout": "zip-deflated", "member_size": 10 * MIB + 1, "configure": {"max_memory_size": 32 * MIB}, "label": "zip-deflated member of 10MiB+1 after configure_archive_extraction(max_memory_size=32MiB)", "expect": "extracted"})
@@ -1137,7 +1174,7 @@ def main(run):
     run.extras["measurements"] = table
     run.count("families_measured", sum(1 for f in table if len([r for r in table[f]]) >= 3))
     run.require("families_measured", run.counters["families_measured"], len(FAMILIES) - 1)
-    run.require("limit_probes", sum(1 for s in run.distinct if s.startswith("limit:")), 43)
+    run.require("limit_probes", sum(1 for s in run.distinct if s.startswith("limit:")), 47)
 
 
 def replay(run, doc):
